@@ -90,6 +90,7 @@ class _World:
         self.sync_tag = None
         self.connect_task = None
         self.updated = False
+        self.last_wrap_tv = None
         self.last_reply = None    # network time announced by the latest genuine answer to our sync request
         self.log = []             # datagrams delivered so far: (raw, kind, inner token)
         self.log_mark = 0         # ... of which this many before the last stop()
@@ -282,6 +283,7 @@ class _World:
             raw[7] ^= 1
         raw = bytes(raw)
         u = R.unwrap(KEY, raw)
+        self.last_wrap_tv = tv
         self.log.append((raw, "wrap", tok))
         return raw, ("rxw", u["session_id"], u["seq"], int(u["mac_ok"]), tok)
 
@@ -292,7 +294,9 @@ class _World:
         base = {"local": local, "sync": local - self.timer.sync_latency_tolerance_ms,
                 "lat": local - self.timer.latency_tolerance_ms,
                 # relative to the network time announced by the latest answer to our synchronisation request
-                "net": net, "netlat": net - self.timer.latency_tolerance_ms}[spec.get("base", "local")]
+                "net": net, "netlat": net - self.timer.latency_tolerance_ms,
+                # relative to the timer value of the wrapper built just before (independent of the implementation's clock)
+                "prevw": self.last_wrap_tv if self.last_wrap_tv is not None else local}[spec.get("base", "local")]
         return base + int(spec.get("off", 0))
 
     def do_dgrams(self, specs):
@@ -409,6 +413,12 @@ def oracle(case, out):
     st = None                  # last probe: (clockDiff, timekeeper, schedUpdate, authenticated)
     latency = case.get("latency", 1000)
     last_out = None            # timer of the last outgoing wrapper since authentication of this connection
+    # reference timer, from the trace alone: reference = monotonic time + ref_diff.  It starts as the unsynchronised
+    # local timer (ref_diff 0), is set by the completion of a synchronisation to the authenticated answer, and is
+    # raised by every timer value that was accepted as authentic and ahead (MAC-verified TimerNotify; forwarded wrapper)
+    ref_diff = 0
+    sync_pending = False
+    reply = None               # timer value of the answer `synchronize` is holding
     synced = False             # a synchronisation of this object has COMPLETED (`sres` seen): only then is the timer
                                # authenticated - judged from the trace, not from the implementation's own flag
     for o in tr:
@@ -445,6 +455,12 @@ def oracle(case, out):
                 return f"TimerNotify outcome {o[-1]}"
             if o[5] != "1" and o[6] != "-":
                 return "timer notify with invalid MAC rescheduled the notify timer"
+            if o[5] == "1":
+                if sync_pending and o[3] == "1" and o[4] == "1":
+                    if reply is None:
+                        reply = int(o[2])          # the answer to our request; adopted when synchronize() resumes
+                elif int(o[2]) > t + ref_diff:
+                    ref_diff = int(o[2]) - t
             pending = ("rxn", t, o[5] == "1")
         elif k == "rxw":
             _, _t, sid, tv, mac, inner, draw, res = o
@@ -463,11 +479,18 @@ def oracle(case, out):
                     why.append(f"inner frame {inner} unparsable / nested / remote diagnosis")
                 if st is not None and not int(tv) > t + st[0] - latency:
                     why.append(f"timer {tv} is not above local {t + st[0]} - latency {latency}")
+                if not int(tv) > t + ref_diff - latency:
+                    why.append(f"its timer {tv} is older than the latency tolerance ({latency} ms) allows against the timer "
+                               f"established by authenticated frames ({t + ref_diff}: synchronised value / newest accepted "
+                               f"timer value, advanced by the elapsed time)")
                 if why:
                     return "wrapped frame passed on although " + ", ".join(why)
+                if mac == "1" and int(tv) > t + ref_diff:
+                    ref_diff = int(tv) - t
             elif res == "d":
                 if (st is not None and synced and mac == "1" and sid == "0" and inner.startswith("s")
-                        and int(inner[1:]) not in FORBIDDEN and int(tv) > t + st[0] - latency):
+                        and int(inner[1:]) not in FORBIDDEN and int(tv) > t + st[0] - latency
+                        and int(tv) > t + ref_diff - latency):
                     return f"authentic wrapped frame with timely timer {tv} (local {t + st[0]}) was dropped"
             else:
                 return f"SecureWrapper outcome {res}"
@@ -490,13 +513,18 @@ def oracle(case, out):
         elif k == "conn":
             if int(o[2]) < 0:
                 return "synchronisation request malformed"
+            sync_pending, reply = True, None
             last_out = None
             pending = ("conn", t, True)
         elif k == "sres":
+            if o[2] == "1" and reply is not None:
+                ref_diff = reply - t               # update(): the timer is SET to the authenticated answer
+            sync_pending, reply = False, None
             synced = True
             last_out = None
             pending = ("sres", t, True)
         elif k == "stop":
+            sync_pending, reply = False, None
             pending = ("stop", t, True)
     return None
 
@@ -612,6 +640,30 @@ def _dgram(rng, sync=False):
     return _wrap(rng)
 
 
+def _three_step(rng, steps, latency):
+    """Inside the window of a pending update notify: (1) a stale authentic frame (rejected, schedules the update notify),
+    (2) an authentic wrapper far ahead of the local timer (forwarded, the timer must follow it), (3) an authentic wrapper
+    older than the tolerance against (2) but within it against the timer as it was before (2)."""
+    ahead = latency + rng.choice([1, 50, 500, 5000, 60000, 2 * latency])
+    if rng.random() < 0.6:
+        stale = {"f": "wrap", "inner": "routing_ind", "base": "lat", "off": rng.choice([0, -1, -50, -5000])}
+    else:
+        stale = {"f": "notify", "mac": 1, "own": 0, "tagm": 0, "base": "lat", "off": rng.choice([0, -1, -50, -5000])}
+    far = {"f": "wrap", "inner": "routing_ind", "base": "local", "off": ahead}
+    delta = rng.choice([0, 1, 50, ahead // 2, ahead - latency, ahead - 1])
+    between = {"f": "wrap", "inner": "routing_ind", "base": "prevw", "off": -latency - max(0, min(delta, ahead - 1))}
+    gap = rng.choice([0, 0, 1, 10, 40])
+    if gap == 0:
+        steps.append({"k": "dgrams", "frames": [stale, far, between]})
+    else:
+        steps.append({"k": "dgrams", "frames": [stale]})
+        steps.append({"k": "sleep", "ms": gap})
+        steps.append({"k": "dgrams", "frames": [far]})
+        steps.append({"k": "sleep", "ms": gap})
+        steps.append({"k": "dgrams", "frames": [between]})
+    return 3
+
+
 def _gen_case(rng, big):
     steps = []
     case = {"latency": rng.choice(LATENCIES), "ks": [rng.choice([0, 1000, 500, rng.randrange(1001)]) for _ in range(rng.randrange(1, 5))]}
@@ -642,7 +694,9 @@ def _gen_case(rng, big):
     budget = rng.randrange(5, 50 if big else 25)
     while n < budget:
         r = rng.random()
-        if r < 0.55:
+        if r < 0.12:
+            n += _three_step(rng, steps, case["latency"])
+        elif r < 0.55:
             c = rng.randrange(1, 4)
             steps.append({"k": "dgrams", "frames": [_dgram(rng) for _ in range(c)]})
             n += c
